@@ -13,18 +13,18 @@ import (
 
 // Mutant is a seeded edit applied in memory (packages overlay); nothing on disk changes.
 type Mutant struct {
-	Name   string `json:"name"`
-	File   string `json:"file"` // repo-relative
-	Old    string `json:"old"`
-	New    string `json:"new"`
-	Edits  []struct {
+	Name  string `json:"name"`
+	File  string `json:"file"` // repo-relative
+	Old   string `json:"old"`
+	New   string `json:"new"`
+	Edits []struct {
 		File string `json:"file"`
 		Old  string `json:"old"`
 		New  string `json:"new"`
 	} `json:"edits,omitempty"`
 	Patch  string `json:"patch,omitempty"` // unified diff (path relative to the mutant file or absolute) applied in memory
-	Expect string `json:"expect"` // "catch" | "silent"
-	Rule   string `json:"rule,omitempty"` // rule expected to report (prefix match), for catch
+	Expect string `json:"expect"`          // "catch" | "silent"
+	Rule   string `json:"rule,omitempty"`  // rule expected to report (prefix match), for catch
 	Why    string `json:"why,omitempty"`
 }
 
